@@ -125,6 +125,11 @@ def mutants_of(path, src):
 
 
 def gen(per_file, seed):
+    only = os.environ.get("AUTOMUT_FILES")
+    if only:
+        for k in list(FILES):
+            if not any(k.endswith(x) for x in only.split(",")):
+                del FILES[k]
     os.makedirs(os.path.join(OUT, "patches"), exist_ok=True)
     rng = random.Random(seed)
     index = []
